@@ -209,6 +209,8 @@ def kmsg_sink_takes_whole_records(ctx):
 
 def run(ctx):
     kmsg_sink_takes_whole_records(ctx)
+    # 'neither happens for an attempt that signalled nothing': a kernel kill whose cgroup.kill write failed is seen to have failed
+    failure_tests_see_the_sign(ctx, "C17", ["Oomd::BaseKillPlugin::tryToKillCgroup", "Oomd::BaseKillPlugin::tryToKillPids"])
     fs_setxattr_always_writes(ctx, "C17")
     from .C19 import stat_update_is_applied_before_return
     stat_update_is_applied_before_return(ctx, "C17")
